@@ -153,6 +153,10 @@ func TestC12_Patches(t *testing.T) {
 							map[string]interface{}{"op": "move", "from": "/arr" + itoa(i) + "/-1", "path": "/x"},
 							map[string]interface{}{"op": "copy", "from": "/arr" + itoa(i) + "/x", "path": "/x"},
 							map[string]interface{}{"op": "replace", "path": "/arr" + itoa(i) + "/99999999999999999999", "value": "x"},
+							map[string]interface{}{"op": "move", "from": "/nope", "path": "/nope"},
+							map[string]interface{}{"op": "move", "from": "/arr" + itoa(i) + "/7", "path": "/arr" + itoa(i) + "/7"},
+							map[string]interface{}{"op": "move", "from": "/arr" + itoa(i) + "/01", "path": "/arr" + itoa(i) + "/01"},
+							map[string]interface{}{"op": "copy", "from": "/nope/x", "path": "/nope/x"},
 							map[string]interface{}{"op": "remove", "path": "/missing/member"},
 							map[string]interface{}{"op": "test", "path": "/ok" + itoa(i), "value": "other"},
 							map[string]interface{}{"op": "replace", "path": "/nothere/x", "value": 1.0},
